@@ -602,6 +602,21 @@ Theorem c06_real_entry_point_extends :
 Proof. exact run_real2_old. Qed.
 Print Assumptions c06_real_entry_point_extends.
 
+(* the register width check and the alias resolution of CfiStackWalker, on every architecture table:
+   set_caller_register(name, v) (and set_cfa / set_ra, which are the same write to the sp / ip register) succeeds iff
+   memoize_register knows the name and v fits size_of::<Register>() bytes; it then makes exactly the memoized register
+   valid with value v and touches no other register; on failure walk_with_stack_cfi clears the register (811f017) *)
+Theorem c06_width_check_and_aliases :
+  forall a s n v,
+    match o_set (real_ops a) s n v with
+    | Some s' => exists c, memoize a n = Some c /\ v < 2 ^ (8 * a_width a) /\
+                   r_ctx s' c = v /\ r_valid s' c = true /\
+                   forall c', c' <> c -> r_ctx s' c' = r_ctx s c' /\ r_valid s' c' = r_valid s c'
+    | None => memoize a n = None \/ 2 ^ (8 * a_width a) <= v
+    end.
+Proof. exact real_set_spec. Qed.
+Print Assumptions c06_width_check_and_aliases.
+
 (* non-vacuity: the computed tables *)
 Example c06_nonvacuous_arch2 :
   arm = mkArch 4 (map bs ["r0"; "r1"; "r2"; "r3"; "r4"; "r5"; "r6"; "r7"; "r8"; "r9"; "r10"; "r12"; "fp"; "sp"; "lr"; "pc"]%string)
@@ -732,6 +747,22 @@ Proof.
     conj (file_first_wins p r1 r0 r2 addr H Hc H1 H2) (file_walk_first_wins S ops p E r1 r0 r2 addr s H Hc H1 H2)).
 Qed.
 Print Assumptions c06_overlap_first_key_wins.
+
+(* the documented result for a whole FILE (abstract walker): when every other record lies beside the covering record
+   r0, or r0 has the smallest key, the unwind step over the file equals cfi_spec of r0 — Some/None, CFA, return
+   address and the cell of every register name (c06_gen_refines_spec lifted from one record to the record table) *)
+Theorem c06_file_refines_spec :
+  forall w p E r1 r0 r2 addr, u64_file (r1 ++ r0 :: r2) -> cfi_covers r0 addr = true ->
+    ((forall r', In r' (r1 ++ r2) -> beside r0 r') \/
+     ((forall r', In r' r1 -> has_range r' -> key_lt r0 r') /\ (forall r', In r' r2 -> has_range r' -> ~ key_lt r' r0))) ->
+    env_wf E -> all_documented r0 addr ->
+    match gen_walk_file (mock_ops w) p E (r1 ++ r0 :: r2) addr m_init, cfi_spec w E r0 addr with
+    | Ret (Some s), Some (cfa, ra, regs) => m_cfa s = Some cfa /\ m_ra s = Some ra /\ forall n, m_regs s n = regs n
+    | Ret None, None => True
+    | _, _ => False
+    end.
+Proof. exact file_refines_spec. Qed.
+Print Assumptions c06_file_refines_spec.
 
 (* non-vacuity, and what happens to OVERLAPPING INIT records (the answers are those of the real code): A = [16,47],
    B = [40,71] overlaps A, C has size 0, D = [2^64-16, 2^64-1] (end + 1 leaves u64), E = [72,79].  A wins the overlap;
